@@ -10,6 +10,9 @@ Layers (each stands alone):
   3. plain auxiliaries                    — `Frame.enter/exit/recur/segueAuxes/checkEnter` over `frame.auxes`
   4. conditional auxiliaries (Suspender)  — `Suspender.action`, `deactivate`, the `deactivize` exit side-act,
                                             `Framer.change/reactivate` (defect D3 is reproduced as written)
+     The code transcribed is /repo with the fix commits D3b (`Suspender.action` / `deactivize` test
+     `aux.main is self._act.frame`: `notOwner`) and D3d (`Framer.checkEnter` / `Frame.checkEnter` /
+     `Framer.checkStart` thread one list `claimed` through a check: `allC`, `auxClaim`, `checkEnterC`).
   5. a minimal scheduler loop             — `Skedder.run` for taskers whose period is 0 (run at every tick)
 
 Conventions
@@ -237,12 +240,12 @@ structure Ops (W : Type) where
   exitAll : Frid → St W → Except Err (St W)        -- `aux.exitAll()` (abort = False)
   recur : Frid → St W → Except Err (St W)
   segue : Frid → St W → Except Err (St W)
-  checkStart : Frid → St W → Except Err Bool
+  checkStart : Frid → List Frid → St W → Except Err (Option (List Frid))   -- `aux.checkStart(claimed)`
 
 def Ops.bottom : Ops W :=
   { enterAll := fun _ _ => .error .depth, exitAll := fun _ _ => .error .depth,
     recur := fun _ _ => .error .depth, segue := fun _ _ => .error .depth,
-    checkStart := fun _ _ => .error .depth }
+    checkStart := fun _ _ _ => .error .depth }
 
 /-- `for x in xs: f(x)` threading the state -/
 def forEach {α : Type} (f : α → St W → Except Err (St W)) : List α → St W → Except Err (St W)
@@ -261,6 +264,17 @@ def allM {α : Type} (p : α → Except Err Bool) : List α → Except Err Bool
     | .ok false => .ok false
     | .ok true => allM p xs
 
+/-- the same loop for a check that extends the list `claimed` (Python mutates one list object; a check that
+fails is abandoned as a whole, so the list need not be returned in that case): `none` = `False` -/
+def allC {α : Type} (p : List Frid → α → Except Err (Option (List Frid))) :
+    List α → List Frid → Except Err (Option (List Frid))
+  | [], cl => .ok (some cl)
+  | x :: xs, cl =>
+    match p cl x with
+    | .error e => .error e
+    | .ok none => .ok none
+    | .ok (some cl') => allC p xs cl'
+
 section level
 variable (P : Prog) (sem : Sem W) (lo : Ops W)
 
@@ -277,24 +291,43 @@ def deactivateAux (aux : Frid) (s : St W) : Except Err (St W) :=
   | .error e => .error e
   | .ok s' => .ok (release P aux s')
 
-/-- `Suspender.deactivize(aux)`: the exit side act -/
-def deactivize (aux : Frid) (s : St W) : Except Err (St W) :=
-  if (s.fr aux).done then .ok s else deactivateAux P lo aux s
+/-- `aux.original and (aux.main is not self._act.frame)`: the auxiliary is in use by another frame (or by none) -/
+def notOwner (aux : Frid) (f : Fid) (s : St W) : Bool :=
+  (P.framer aux).original && (s.fr aux).main != some f
 
-/-- the aux part of `Frame.checkEnter(exits)` for one aux -/
-def auxCheck (f : Fid) (exits : List Fid) (s : St W) (aux : Frid) : Except Err Bool :=
+/-- `Suspender.deactivize(aux)`: the exit side act of the conditional auxiliary `aux` of frame `f`:
+`if not aux.done and (not aux.original or aux.main is self._act.frame): self.deactivate(aux)` -/
+def deactivize (f : Fid) (aux : Frid) (s : St W) : Except Err (St W) :=
+  if (s.fr aux).done || notOwner P aux f s then .ok s else deactivateAux P lo aux s
+
+/-- the second half of the aux part of `Frame.checkEnter`: an original auxiliary already claimed by a frame
+checked earlier in the same check fails; otherwise it is appended to `claimed` and its own start is checked -/
+def auxClaim (s : St W) (cl : List Frid) (aux : Frid) : Except Err (Option (List Frid)) :=
+  if (P.framer aux).original then
+    if cl.contains aux then .ok none else lo.checkStart aux (cl ++ [aux]) s
+  else lo.checkStart aux cl s
+
+/-- the aux part of `Frame.checkEnter(exits, claimed)` for one aux -/
+def auxCheck (f : Fid) (exits : List Fid) (s : St W) (cl : List Frid) (aux : Frid) :
+    Except Err (Option (List Frid)) :=
   match (s.fr aux).main with
-  | some m => if m ≠ f ∧ m ∉ exits then .ok false else lo.checkStart aux s
-  | none => lo.checkStart aux s
+  | some m => if m ≠ f ∧ m ∉ exits then .ok none else auxClaim P lo s cl aux
+  | none => auxClaim P lo s cl aux
 
-/-- `Frame.checkEnter(exits)` -/
-def frameCheckEnter (exits : List Fid) (s : St W) (f : Fid) : Except Err Bool :=
-  if needsHold sem (P.frame f).beacts s then allM (auxCheck lo f exits s) (P.frame f).auxes
-  else .ok false
+/-- `Frame.checkEnter(exits, claimed)` -/
+def frameCheckEnter (exits : List Fid) (s : St W) (cl : List Frid) (f : Fid) : Except Err (Option (List Frid)) :=
+  if needsHold sem (P.frame f).beacts s then allC (auxCheck P lo f exits s) (P.frame f).auxes cl
+  else .ok none
 
-/-- `Framer.checkEnter(enters, exits)` -/
+/-- `Framer.checkEnter(enters, exits, claimed)` -/
+def checkEnterC (enters exits : List Fid) (cl : List Frid) (s : St W) : Except Err (Option (List Frid)) :=
+  if enters.isEmpty then .ok none else allC (frameCheckEnter P sem lo exits s) enters cl
+
+/-- `Framer.checkEnter(enters, exits)` called with `claimed=None`: a new check -/
 def checkEnter (enters exits : List Fid) (s : St W) : Except Err Bool :=
-  if enters.isEmpty then .ok false else allM (frameCheckEnter P sem lo exits s) enters
+  match checkEnterC P sem lo enters exits [] s with
+  | .error e => .error e
+  | .ok r => .ok r.isSome
 
 /-- `Frame.enter()` -/
 def frameEnter (f : Fid) (s : St W) : Except Err (St W) :=
@@ -313,7 +346,7 @@ def frameExit (f : Fid) (s : St W) : Except Err (St W) :=
   | .error e => .error e
   | .ok s1 =>
     let s2 := runActs sem .exit f (P.frame f).exacts s1
-    forEach (deactivize P lo) (suspAuxes (P.frame f).preacts) s2
+    forEach (deactivize P lo f) (suspAuxes (P.frame f).preacts) s2
 
 /-- `Framer.exit(exits)`: reversed in place, then `frame.exit()` for each -/
 def exit (exits : List Fid) (s : St W) : Except Err (St W) :=
@@ -350,6 +383,10 @@ def frameRecur (f : Fid) (s : St W) : Except Err (St W) :=
 /-- `Framer.recur()` -/
 def recur (i : Frid) (s : St W) : Except Err (St W) :=
   forEach (frameRecur P sem lo) (s.fr i).actives s
+
+/-- `Framer.checkStart(claimed)` -/
+def checkStartC (i : Frid) (cl : List Frid) (s : St W) : Except Err (Option (List Frid)) :=
+  checkEnterC P sem lo (P.frame (P.framer i).first).outline [] cl s
 
 /-- `Framer.checkStart()` -/
 def checkStart (i : Frid) (s : St W) : Except Err Bool :=
@@ -404,10 +441,10 @@ def suspendStart (i : Frid) (f : Fid) (needs : List NeedId) (aux : Frid) (tracts
   if needsHold sem needs s then
     if ownedElsewhere aux f s then .ok (false, s)
     else
-      match lo.checkStart aux s with
+      match lo.checkStart aux [] s with
       | .error e => .error e
-      | .ok false => .ok (false, s)
-      | .ok true => suspendEnter P sem lo i f aux tracts s
+      | .ok none => .ok (false, s)
+      | .ok (some _) => suspendEnter P sem lo i f aux tracts s
   else .ok (false, s)
 
 /-- `Suspender.action`, branch `if not aux.done:` (active) -/
@@ -431,6 +468,7 @@ def suspendRun (i : Frid) (aux : Frid) (s : St W) : Except Err (Bool × St W) :=
 def suspend (i : Frid) (f : Fid) (needs : List NeedId) (aux : Frid) (tracts : List Act) (s : St W) :
     Except Err (Bool × St W) :=
   if (s.fr aux).done then suspendStart P sem lo i f needs aux tracts s
+  else if notOwner P aux f s then .ok (false, s)
   else suspendRun P lo i aux s
 
 def runPreact (i : Frid) (f : Fid) (p : Preact) (s : St W) : Except Err (Bool × St W) :=
@@ -471,7 +509,7 @@ def segue (i : Frid) (s : St W) : Except Err (St W) :=
 /-- the entry points of level `n+1` from those of level `n` -/
 def nextOps : Ops W :=
   { enterAll := enterAll P sem lo, exitAll := exitAll P sem lo false,
-    recur := recur P sem lo, segue := segue P sem lo, checkStart := checkStart P sem lo }
+    recur := recur P sem lo, segue := segue P sem lo, checkStart := checkStartC P sem lo }
 
 end level
 
